@@ -1,5 +1,6 @@
 # Human-written parts of MANIFEST.json, per property.
 ENGINES = [
+    dict(name="E1 vnet", path="harness/vnet, harness/t_net", serves_properties=["C01", "C02", "C03", "C06", "C07"], kind_free_text="consensus world: real participants behind harness hosts, virtual clock, generated scheduler with six profiles, adaptive Byzantine coalition using an evidence pool, runtime monitors, timely closing regime"),
     dict(name="E3 store", path="harness/vds, harness/t_store", serves_properties=["C09", "C10", "C17"], kind_free_text="deterministic fault-injecting datastore (write counting, crash after k writes, snapshot/restore, permutable query order) + rapid state machines against an in-memory store model"),
     dict(name="E2 structured", path="harness/t_certs, harness/t_msgs, harness/t_codec", serves_properties=["C04", "C05", "C13", "C14"], kind_free_text="grammar-directed rapid generators (vgen) + field-level corruption operators, differential against reference models (vref)"),
     dict(name="E5 arith", path="harness/t_arith", serves_properties=["C08"], kind_free_text="exhaustive loops + rapid generators over big-integer power tables and real tallies"),
@@ -9,6 +10,30 @@ PENDING = "check under construction in this session; will be claimed once its ha
 NOT_APPLICABLE = {("C%02d" % i): PENDING for i in range(1, 21)}
 
 TEXT = {
+    "C01": dict(
+        engine="E1 vnet",
+        technique="property-based testing (rapid) of generated schedules and adaptive <1/3 Byzantine strategies on real gpbft.Participants; invariant over the history of reported decisions",
+        level_text="Generated exploration: every delivery, duplicate, drop, timer firing, staggered start and Byzantine emission is a generated choice (six scheduler profiles, per-destination equivocation, justifications assembled from observed honest signatures plus the coalition's own keys, strictly below one third of scaled power) over generated power tables, EC-tree inputs and 1-3 consecutive instances; oracle: all honest decisions of an instance are equal, one decision per participant. Exploration, not exhaustion: the evidence reports the depth reached (round histogram, sways, skips, accepted Byzantine traffic).",
+        level_note="Trusted base: vcrypto (the coalition only signs with its own keys and re-uses observed signatures), the harness host. Participants are driven only through their public API. Deep multi-round attacks are reached only as far as the label histogram shows.",
+    ),
+    "C02": dict(
+        engine="E1 vnet",
+        technique="property-based testing (rapid) of generated schedules/adversaries; per-decision validity predicate; metamorphic unanimous mode",
+        level_text="Same worlds as C01 with forked inputs at every depth, chains to the 128 maximum in the thorough tier, foreign-base and foreign-branch chains injected by the coalition. Oracle: every honest decision is non-empty, starts at the base the participant's GetProposal returned, and is a prefix of some honest input; unanimous timely mode (no faulty sender, identical inputs, honest strong quorum): the common input itself is decided.",
+        level_note="Trusted base as C01. The unanimous sub-property is run as a separate generator mode whose whole execution is the time-ordered closing regime.",
+    ),
+    "C03": dict(
+        engine="E1 vnet",
+        technique="property-based testing (rapid): every decision of every explored execution checked against an independent proof verifier and certificate validation",
+        level_text="For every decision reported in the C01 worlds (tables that change between instances, zero-scaled members): justification fields, strictly increasing in-range non-zero signers forming a strong quorum (scaled powers recomputed with math/big), aggregate over the independently encoded DECIDE payload of exactly the decided value; NewFinalityCertificate with MakePowerTableDiff(cur,next) is accepted by ValidateFinalityCertificates and by the reference validator on a node that holds only the table, returning instance+1, the decided suffix and the next table.",
+        level_note="Trusted base: vcrypto, harness/vref. Real BLS aggregation is not exercised.",
+    ),
+    "C07": dict(
+        engine="E1 vnet",
+        technique="property-based testing (rapid) with per-emission runtime monitors over generated schedules/adversaries (invariants over the delivery history of each participant)",
+        level_text="Monitors for clauses (a)-(h) run on every emission and every API call of every honest participant in all generated worlds, fed by exactly what that participant's ValidateMessage accepted before each ReceiveMessage. Votes of equivocating or foreign-base senders are ambiguous by design of the implementation's de-duplication; clauses are evaluated for every admissible tally and fail only if none satisfies them, so the monitors never blame the code for a vote it was entitled to ignore.",
+        level_note="Trusted base: vcrypto, harness/vref validator and quorum arithmetic. PREPARE deadlines are taken from the SetAlarm made in the same API call right before the broadcast. Ticket ranks use the public ComputeTicketRank.",
+    ),
     "C09": dict(
         engine="E3 store",
         technique="stateful property-based testing (rapid): operation histories on the real store vs an in-memory reference model, all observables compared after every step; -race stress for readers/writers",
